@@ -896,6 +896,7 @@ pub fn run(task: &str) -> Option<EvalResult> {
         "paths_ground" => Some(crate::paths::paths_ground()),
         "merkle_ground" => Some(crate::merkle::merkle_ground(false)),
         "merkle_ground:thorough" => Some(crate::merkle::merkle_ground(true)),
+        "tree_hash_ground" => Some(crate::t_tree_hash::tree_hash_ground()),
         "roundtrip_ground" => Some(crate::roundtrip::roundtrip_ground(false)),
         "roundtrip_ground:thorough" => Some(crate::roundtrip::roundtrip_ground(true)),
         "pos_v2_hash" => Some(pos_v2_hash()),
